@@ -47,6 +47,14 @@ class PreError(Exception):
         self.i = i
 
 
+class FuncError(Exception):
+    """raised by `func` itself (the submitting function), not by the worker"""
+
+    def __init__(self, i):
+        super().__init__(i)
+        self.i = i
+
+
 # ----------------------------------------------------------------------------------------------
 # cases
 # ----------------------------------------------------------------------------------------------
@@ -75,8 +83,15 @@ def gen_case(rng: random.Random, tier: str, bias: str = ''):
         dur = [max(0, 2 * (n - i) + rng.randrange(3)) for i in range(n)]     # later elements finish first
     sdel = [rng.choice([0, 0, 0, 1, 4]) for _ in range(n + 1)]
     cdel = [rng.choice([0, 0, 0, 2, 7]) for _ in range(n + 1)]
+    # rarely: `func` itself raises on some non-rejected element (both implementations forward that like a source
+    # failure); not in the Lean models — monitors only
+    fx = None
+    if kind == 'afifo' and n > 0 and rng.random() < 0.05:
+        fx = rng.randrange(n)
+        if fx in pf:
+            fx = None
     return dict(kind=kind, n=n, src=src, cap=cap, conc=conc, rexc=rexc, retx=rng.random() < 0.5,
-                pre=pre, pf=pf, re=re, stop_after=stop_after, dur=dur, sdel=sdel, cdel=cdel,
+                pre=pre, pf=pf, re=re, stop_after=stop_after, dur=dur, sdel=sdel, cdel=cdel, fx=fx,
                 seed=rng.randrange(1 << 30))
 
 
@@ -121,7 +136,11 @@ def expected(case):
     """The specification, computed from the case alone: (list of (index, kind), ending)."""
     out = []
     end = ('end',)
+    fx = case.get('fx')
     for i in range(case['n']):
+        if fx is not None and i == fx:
+            end = ('raise', 'func', i)
+            break
         if case['pre'] and i in case['pf']:
             kind = 'pre'
         elif i in case['re']:
@@ -215,6 +234,8 @@ class _Book:
             return ('raise', 'src', None), True
         if isinstance(e, StopRequested):
             return ('raise', 'stopreq', None), True
+        if isinstance(e, FuncError):
+            return ('raise', 'func', e.i), True
         return ('raise', 'other:' + type(e).__name__, None), False
 
 
@@ -268,6 +289,8 @@ def _run_async(case):
         pre = book.pre if case['pre'] else None
         if kind == 'afifo':
             async def func(x):
+                if case.get('fx') is not None and x - book.off == case['fx']:
+                    raise FuncError(case['fx'])
                 log(('submit', x - book.off))
                 return loop.create_task(awork(x))
             gen = async_fifo_stream(Src(), func, capacity=case['cap'], return_x=case['retx'],
@@ -300,7 +323,7 @@ def _run_async(case):
                     break
         except StopAsyncIteration:
             end = ('end',)
-        except (WorkError, PreError, SrcError, StopRequested, UnboundLocalError) as e:
+        except (WorkError, PreError, SrcError, StopRequested, FuncError, UnboundLocalError) as e:
             end, same = book.classify(e)
             ident = ident and same
         log(('join',))
@@ -358,14 +381,18 @@ def _run_sync(case):
                     gen.close()
                     return ('closed',)
             return ('end',)
-        except (WorkError, PreError, SrcError, StopRequested) as e:
+        except (WorkError, PreError, SrcError, StopRequested, FuncError) as e:
             end, same = book.classify(e)
             ident = ident and same
             return end
 
     if case['kind'] == 'afifo':
         with ThreadPoolExecutor(max(2, case['conc'])) as pool:
-            gen = fifo_stream(Src(), lambda x: pool.submit(work, x), capacity=case['cap'], return_x=case['retx'],
+            def func(x):
+                if case.get('fx') is not None and x - book.off == case['fx']:
+                    raise FuncError(case['fx'])
+                return pool.submit(work, x)
+            gen = fifo_stream(Src(), func, capacity=case['cap'], return_x=case['retx'],
                               return_exceptions=case['rexc'], preprocessor=pre)
             end = consume(gen)
     else:
@@ -442,6 +469,8 @@ def model_lines(cid, case, res, stale=False):
     failing-source ending; which exception class arrives is checked by the monitor).
     `stale=True`: lines for `drv afifostale` (Legacy model of the pinned code, where the
     `UnboundLocalError` of defect F1 travels on the source-failure path)."""
+    if case.get('fx') is not None:
+        return []          # a raising `func` is not in the Lean models: monitors only
     src = 'clean' if case['src'] == 'clean' else 'exc'
     pfl = ','.join(map(str, case['pf'])) if case['pre'] else ''
     lines = [f'case {cid} n={case["n"]} cap={case["cap"]} rexc={int(case["rexc"])} '
